@@ -784,7 +784,7 @@ def r10(R):
 @rule('C11.R11', 'an object that was new in the transaction is disowned '
       'WITH its state: it is never ghostified first (a ghost without a '
       'database cannot get its state back, and "can be added again later" '
-      'needs the state)', props=['C14'], min_instances=2)
+      'needs the state)', props=['C14', 'C12'], min_instances=3)
 def r11(R):
     conn = R.prog.cls(CONN)
     # (a) tpc_abort: created objects are disowned before the modified ones
@@ -858,3 +858,114 @@ def r11(R):
     for v in vs[:1]:
         R.violation(v.node, v.message, g2, v.path,
                     key='registered created object invalidated')
+    # (c) abort(): the created objects are disowned before the savepoint
+    #     data is discarded (which invalidates everything it holds -- among
+    #     it what a savepoint that then failed had just stored)
+    f3 = R.method(conn, 'abort')
+    g3, b3, F3 = R.cfg(f3, conn, max_depth=0)
+    R.instance('Connection.abort order')
+
+    def edge3(node, st, lab, tgt):
+        if lab in ('e', 'eb'):
+            return st
+        for op in F3.ops(node):
+            if op.kind == 'call' and path_is(
+                    op.path, ('self', '_invalidate_creating')) and \
+                    not op.ast.args:
+                st = True
+        return st
+
+    def at3(node, st):
+        for op in F3.ops(node):
+            if op.kind == 'call' and path_is(
+                    op.path, ('self', '_abort_savepoint')) and not st:
+                return Violation(
+                    'abort() discards the savepoint data -- invalidating '
+                    'everything the savepoint storage holds -- before it '
+                    'disowns the objects recorded as created: a new object '
+                    'that a savepoint (or the commit) stored just before '
+                    'it failed is ghostified and then loses its database; '
+                    'its state is gone, adding it again fails')
+        return st
+
+    vs, stats = explore(g3, False, at=at3, edge=edge3)
+    R.count(stats)
+    for v in vs[:1]:
+        R.violation(v.node, v.message, g3, v.path,
+                    key='savepoint data discarded before created disowned')
+
+
+# ------------------------------------------------------------------ C11.R12
+@rule('C11.R12', 'the list of objects a commit has stored (what tpc_abort '
+      'reverts) survives the abort() that precedes tpc_abort: abort() '
+      'forgets it only after it has invalidated those objects itself',
+      min_instances=1)
+def r12(R):
+    """When a commit fails before the vote the transaction calls abort() on
+    the connection and then tpc_abort().  tpc_abort() invalidates
+    `self._modified` -- among them what savepoints stored.  A reset of that
+    list on any path through abort() (with its helpers inlined) that has not
+    invalidated the list first leaves those objects with their uncommitted
+    state as clean state."""
+    cls = R.prog.cls(CONN)
+    f = R.method(cls, 'abort')
+    g, b, F = R.cfg(f, cls, max_depth=2)
+    # the list, by role: what tpc_abort hands to the cache's invalidate
+    ta = R.method(cls, 'tpc_abort')
+    lists = set()
+    for c in walk_local(ta.node):
+        if isinstance(c, ast.Call) and dotted(c.func) and \
+                dotted(c.func)[-1] == 'invalidate' and c.args:
+            d_ = dotted(c.args[0])
+            if d_ and len(d_) == 2 and d_[0] == 'self':
+                lists.add(d_[1])
+    R.require(lists, 'tpc_abort no longer invalidates a list of stored '
+              'objects')
+    R.instance('Connection.abort', reverted_by_tpc_abort=sorted(lists))
+
+    def edge(node, st, lab, tgt):
+        if lab in ('e', 'eb'):
+            return st
+        for op in F.ops(node):
+            if op.kind == 'call' and op.path is not None and \
+                    op.path[-1] == 'invalidate' and isinstance(
+                        op.ast, ast.Call) and op.ast.args:
+                d_ = dotted(op.ast.args[0])
+                if d_ and len(d_) == 2 and d_[0] == 'self' and \
+                        d_[1] in lists:
+                    st = st | {d_[1]}
+        return st
+
+    def at(node, st):
+        for op in F.ops(node):
+            name = None
+            if op.kind in ('store', 'del') and op.path is not None and \
+                    len(op.path) == 2 and op.path[0] == 'self' and \
+                    op.path[1] in lists:
+                name = op.path[1]
+            elif op.kind == 'call' and op.path is not None and \
+                    len(op.path) == 3 and op.path[0] == 'self' and \
+                    op.path[1] in lists and op.path[2] == 'clear':
+                name = op.path[1]
+            elif op.kind == 'delitem' and op.path is not None and \
+                    op.path[:2] == ('self', name or '_modified') and \
+                    op.path[1] in lists:
+                name = op.path[1]
+            if name and name not in st:
+                return Violation(
+                    'abort() forgets self.%s (`%s`) without having '
+                    'invalidated the objects in it: when a commit fails '
+                    'before the vote the transaction calls abort() and then '
+                    'tpc_abort(), which now finds the list empty -- the '
+                    'objects the commit (or its savepoints) had stored keep '
+                    'their uncommitted state as if it were committed; a '
+                    'retry applies the change a second time' % (
+                        name, ' '.join(ast.unparse(op.stmt).split())[:60]))
+        return st
+
+    vs, stats = explore(g, frozenset(), at=at, edge=edge)
+    R.count(stats)
+    for v in vs[:1]:
+        R.violation(v.node, v.message, g, v.path,
+                    key='stored-object list forgotten by abort() before '
+                        'tpc_abort')
